@@ -266,6 +266,8 @@ def _edits_concrete(vc, check):
         ent = body + e["emf"]
         d += bytes([len(ent) % 256]) + ent
     d += bytes([SB])
+    dirpad = vc.bytes("dirpad") if "dirpad" in vc.inputs else b""
+    d += dirpad
     first = off + 4 + len(d)
     binary = bytes(off) + len(d).to_bytes(4, "big") + d + R
     rdr = M.BytesReader(binary, "x")
@@ -278,6 +280,7 @@ def _edits_concrete(vc, check):
     for e in ents:
         cs_.append(cs_[-1] + e["stored"])
     vc.prove("accept=>sentinel-is-00", SB == 0)
+    vc.prove("accept=>directory-ends-with-its-sentinel", len(dirpad) == 0)
     vc.prove("accept=>nothing-follows-the-last-payload", cs_[n] == len(R))
     if n:
         e = ents[J0]
@@ -315,7 +318,11 @@ def _edits(vc, check):
     vc.ctx.aux["Rseg"] = R.segs[0] if isinstance(R, Rope) and R.segs else None
     if vc.ctx.aux["Rseg"] is None:
         vc.assume(False)
-    d = vc.cat(edir(vc, 0, n), vc.be(SB, 1))
+    # bytes between the sentinel and the end of the directory (covered by the directory size field): must not exist
+    PL = vc.int("PL", 0, 64)
+    dirpad = vc.bytes("dirpad", PL)
+    vc.assume(vc.Or(PL == 0, SB == 0))      # a non-zero "sentinel" makes the reader parse what follows as an entry
+    d = vc.cat(edir(vc, 0, n), vc.be(SB, 1), dirpad)
     vc.assume(d.length_term() < 2 ** 32)
     first = SInt(core.toint(off) + 4 + d.length_term())
     pre = vc.fresh_bytes("pre", off)
@@ -334,6 +341,7 @@ def _edits(vc, check):
         return
     vc.cover("accepted")
     vc.prove("accept=>sentinel-is-00", SB == 0)
+    vc.prove("accept=>directory-ends-with-its-sentinel", PL == 0)
     vc.prove("accept=>nothing-follows-the-last-payload", cs(vc, n) == core.toint(RL))
     vc.prove("accept=>address-absolute-and-contiguous", ADRF(J0) == core.toint(first) + cs(vc, J0))
     vc.prove("accept=>declared<=stored", DLF(J0) <= SLF(J0))
@@ -359,16 +367,19 @@ def fam_edits(seed, tier):
     """valid files of C04's family x one structured edit each (MACs recomputed by spec/layout.py so that only the
     rule under test is broken): address +-1 / 0 / 2^32-1, stored length +-1, declared = stored+1 / 0, duplicate tag,
     tag length +-1, description length +-1, entry length +-1, directory size +-1, sentinel 01/FF/dropped, swapped
-    entries, trailing bytes 00 / FF, wrong entry index in the MAC, plus the unedited file"""
+    entries, trailing bytes 00 / FF, wrong entry index in the MAC, bytes after the entry MAC inside the entry length,
+    bytes after the sentinel inside the directory size (both otherwise fully consistent), plus the unedited file"""
     from contracts import C04
     edits = ["none", "adr+1", "adr-1", "adr0", "adrmax", "stored+1", "stored-1", "declared>stored", "declared0",
              "duptag", "taglen+1", "taglen-1", "desclen+1", "desclen-1", "entrylen+1", "entrylen-1",
              "dirsize+1", "dirsize-1", "sentinel01", "sentinelFF", "nosentinel", "swap", "trail00", "trailFF",
-             "mac-index", "payload-byte"]
+             "mac-index", "payload-byte", "entrypad1", "entrypad3", "dirpad1", "dirpad3"]
     for comps, key in C04._files(seed, tier):
         for e in edits:
             for j in range(len(comps)):
-                yield dict(comps=comps, key=key, edit=e, j=j)
+                yield dict(comps=comps, key=key, edit=e, j=j, check=True)
+                # the structural rules do not depend on MAC checking: the same edits with the check switched off
+                yield dict(comps=comps, key=key, edit=e, j=j, check=False)
 
 
 @proof("C05/structured-edits", functions=C01.FUNCS, family=fam_edits, bounded_only=True)
@@ -380,15 +391,16 @@ def structured_edits(vc):
     comps = [layout.Comp([tuple(t) for t in c["tags"]], c["blob"], c["declared"], c["enc"]) for c in vc._get("comps")]
     edit = vc._get("edit")
     j = vc._get("j")
+    check = vc.inputs.get("check", True)
     binary = _edited(layout, comps, key, edit, j)
     if binary is None:
         vc.assume(False)
-    spec = vc.call(layout.parse_bf3, binary, key, True)
+    spec = vc.call(layout.parse_bf3, binary, key, check)
     rdr = M.BytesReader(binary, "x")
     sig = rdr.read(5) if len(binary) >= 5 else b""
     if sig != b"BF3\0\0":
         vc.assume(False)
-    real = vc.call(M.Bf3File.from_binary, rdr, None, True, key)
+    real = vc.call(M.Bf3File.from_binary, rdr, None, check, key)
     vc.prove("reader-accepts<=>validator-accepts[%s]" % edit, real.returned == spec.returned,
              "real: %r / validator: %r" % (real.exc, spec.exc))
     if real.returned and spec.returned:
@@ -466,6 +478,8 @@ def _edited(layout, comps, key, edit, j):
             if i == j and edit == "mac-index":
                 ivx = pos + 2
             e = body + layout.mac(key, ivx.to_bytes(16, "big"), body)
+            if i == j and edit in ("entrypad1", "entrypad3"):
+                e += b"\x00\x5a\xff"[: int(edit[-1])]         # covered by the entry-length byte, by no MAC
             el = len(e)
             if i == j and edit == "entrylen+1":
                 el += 1
@@ -481,6 +495,8 @@ def _edited(layout, comps, key, edit, j):
             pass
         else:
             d += b"\x00"
+        if edit in ("dirpad1", "dirpad3"):
+            d += b"\x00\x2d\xff"[: int(edit[-1])]             # after the sentinel, inside the directory size
         return d, adrs
 
     r = build(0)
